@@ -94,16 +94,24 @@ Sync ==
 
 FaultImages ==
     IF Protocol = "replace" THEN {disk} \cup TruncImages(disk, BSZ)
-    ELSE (IF Faults = "truncate" THEN {disk, cache} ELSE SubsetImages(disk, cache, BSZ))
-         \cup TruncImages(disk, BSZ) \cup TruncImages(cache, BSZ)
+    ELSE IF Faults = "truncate"      \* truncation faults only: cuts of self-consistent snapshots
+    THEN {disk} \cup TruncImages(disk, BSZ)
+         \cup (IF Consistent(cache) THEN {cache} \cup TruncImages(cache, BSZ) ELSE {})
+    ELSE SubsetImages(disk, cache, BSZ) \cup TruncImages(disk, BSZ) \cup TruncImages(cache, BSZ)
 
-(* the finished state (what the next sync would make durable) is an allowed answer *)
+(* A crash / fault at the current point: the history as the harness records it (the  *)
+(* finished state - what the next sync would make durable - is an allowed answer)    *)
+(* and the descriptor of image x.  The crash states are enumerated inside invariant  *)
+(* Conforms (every image of FaultImages in every reachable application state), the   *)
+(* action Crash only ends a behaviour with one of them.                              *)
+SpAtCrash == Append(sp, [c |-> Logical(cache), sync |-> FALSE,
+                         valid |-> Consistent(cache) /\ Protocol /= "replace"])
+CrashDesc(x) == [kind |-> "crash", k |-> Len(sp) + 1, upto |-> Len(sp) + 1, len |-> x.len, file |-> x]
+
 Crash ==
     /\ img = NoImg
-    /\ \E x \in FaultImages :
-         /\ sp' = Append(sp, [c |-> Logical(cache), sync |-> FALSE,
-                              valid |-> Consistent(cache) /\ Protocol /= "replace"])
-         /\ img' = [kind |-> "crash", k |-> Len(sp) + 1, upto |-> Len(sp) + 1, len |-> x.len, file |-> x]
+    /\ sp' = SpAtCrash
+    /\ img' = CrashDesc(IF Protocol = "replace" \/ Faults = "truncate" THEN disk ELSE cache)
     /\ UNCHANGED <<disk, cache, order, setlen, nsync>>
 
 (* the cross-process round trip: nothing pending, the synced file is opened again *)
@@ -137,7 +145,10 @@ Read(x) ==
            [] Reader = "naive" -> Ok(HdrN(h), SumCode(x, HdrN(h)))   \* zeros beyond the end
 
 (* ---- properties ---- *)
-Conforms == img /= NoImg => LET r == Read(img.file) IN ReopenOK(r.outcome, r.content, r.extent)
+Conforms ==
+    /\ img /= NoImg => LET r == Read(img.file) IN ReopenOK(r.outcome, r.content, r.extent)
+    /\ img = NoImg => \A x \in FaultImages :
+                         LET r == Read(x) IN ReopenAllowed(SpAtCrash, CrashDesc(x), r.outcome, r.content, r.extent)
 
 Shape == [run |-> 0, k |-> 1, f |-> "f", has_new |-> TRUE, intact |-> TRUE, trunc |-> TRUE, dense |-> TRUE,
           old_len |-> disk.len, new_len |-> cache.len, nch |-> Cardinality(ChangedSet(disk, cache)),
